@@ -715,7 +715,7 @@ _SKIP |= {"r6-annotate-2", "r6-annotate-3", "r6-clean-1", "r6-clean-3", "r6-find
 _SKIP |= {"r7-resolve-2", "r7-tokenizers-1", "r7-tokenizers-2", "r7-utils-3", "r7-find-1"}
 # r8 = second batch aimed at the rule areas of rounds 8-9; the reported ones repeat earlier known limits (accumulator, atomic cache write, hit realignment,
 # find/rfind balancer, multi-word markup names, prefix/suffix trimming before difflib, a different trimming algorithm for the full span)
-_SKIP |= {"r8-annotate-2", "r8-find-3", "r8-helpers-2", "r8-resolve-2", "r8-utils-2", "r8-tokenizers-1", "r8-tokenizers-2", "r8-tokenizers-3"}
+_SKIP |= {"r8-annotate-2", "r8-find-3", "r8-helpers-2", "r8-resolve-2", "r8-utils-2", "r8-tokenizers-1", "r8-tokenizers-3"}
 for _f in sorted(_glob.glob(_os.path.join(_os.path.dirname(_os.path.dirname(__file__)), "benign", "*.diff"))):
     _n = _os.path.basename(_f)[:-5]
     if _n not in _SKIP:
